@@ -464,4 +464,35 @@ theorem mimoVal_residual (x : Label → Rat) (nt : Nat) : ∀ (y : List Rat) (F 
         rw [this]; grind
       rw [e1, e2, ← hsq]; grind
 
+theorem sumN_shift (n : Nat) (f : Nat → Rat) : sumN (n + 1) f = f 0 + sumN n (fun i => f (i + 1)) := by
+  induction n with
+  | zero => simp only [sumN]; grind
+  | succ k ih => rw [sumN, ih]; simp only [sumN]; grind
+
+theorem dot_eq_sumN : ∀ (a b : List Rat), dot a b = sumN b.length (fun i => a.getD i 0 * b.getD i 0) := by
+  intro a b
+  induction b generalizing a with
+  | nil => cases a <;> simp [dot, sumN]
+  | cons y ys ih =>
+    cases a with
+    | nil =>
+      simp only [dot, List.length_cons]
+      rw [sumN_zero]; intro i; simp
+    | cons x xs =>
+      simp only [dot, List.length_cons, sumN_shift, ih xs]
+      simp only [List.getD_cons_zero, List.getD_cons_succ]
+
+/-- **no noise: the transmitted symbols have energy 0** (`y = F·v`, sample `x = v`) -/
+theorem residual_transmitted (x : Label → Rat) (nt : Nat) (v : List Rat) (hv : v.length = nt) (hx : ∀ i, i < nt → x (iv i) = v.getD i 0) :
+    ∀ F : List (List Rat), residual x nt (matVec F v) F = 0 := by
+  intro F
+  induction F with
+  | nil => simp [matVec, residual]
+  | cons row F ih =>
+    simp only [matVec, List.map_cons, residual] at ih ⊢
+    rw [ih, dot_eq_sumN, hv]
+    have : sumN nt (fun i => row.getD i 0 * x (iv i)) = sumN nt (fun i => row.getD i 0 * v.getD i 0) :=
+      sumN_congr _ _ _ (fun i hi => by rw [hx i hi])
+    rw [this]; grind
+
 end Gen
